@@ -37,6 +37,9 @@ func init() {
 			{ID: "C16-R13", Title: "Equals is not short-circuited by comparing the types of two values", Floor: 1, Run: equalsNotShortCircuitedByType},
 			{ID: "C16-R14", Title: "subscripts go through Container.GetItem", Floor: 1, Run: subscriptGoesThroughGetItem},
 			{ID: "C16-R15", Title: "a byte of a string does not stand for a character (shared with C19)", Floor: 1, Run: stringBytesAreNotCharacters},
+			{ID: "C16-R16", Title: "errors of object constructors are raised, not pushed as values", Floor: 1, Run: constructorErrorsAreRaised},
+			{ID: "C16-R17", Title: "slice bounds are tested against the same limit", Floor: 1, Run: sliceBoundsShareTheLimit},
+			{ID: "C16-R18", Title: "byte_slice() and buffer() copy the bytes of the value they convert", Floor: 2, Run: conversionsCopyByteStorage},
 		},
 	})
 }
